@@ -37,6 +37,10 @@ def main():
             free += [f"{a} {u}", f"{b} {u}"]
     free += [x for s_ in T.get("non_units", []) for x in (s_, f"5 {s_}", f"m/{s_}", f"{s_}²")]
     free += ["nan", "NaN", "-nan", "+NAN", " nan ", "inf", "-inf", "Infinity", "12", "1.5", "-7", "1e3", "9" * 4400, "9" * 4301, "nan m", "inf m", "1_000 m", "1_0", "0x10 m", "٣ m"]    # numbers on their own, Python-only numeral spellings
+    # long runs of letters that are themselves prefix symbols (each one could be split off as a prefix of the rest), and dimensionless ratios of
+    # one unit under two prefixes with an integer magnitude (nothing may fold the prefix into the number the user wrote)
+    free += ["m" * 1500, "k" * 1500 + "g^2", "5 " + "m" * 1500, "μ" * 3000, "da" * 800, "m" * 40, "Mk" * 700 + "m", "5 " + "G" * 2500 + "Hz"]
+    free += ["5 m/km", "5 mm/m", "5 cm^2/m^2", "3 μs/s", "5 B/KiB", "7 km/m", "5 kg/g", "1e999 m^200/km^200", "5 Mm/km", "12 ms/ks", "5 m/m", "5 km/km", "0 mm/m", "-4 mg/kg"]
     free += ["km zeebles", "Mm kg $", "5 mA zeebles", "mA/zeebles", "kHz⋅zz", "μs ms ns qq", "5 km/", "km ^2", "kHz MHz GHz THz zz"]     # a prefixed unit resolved before the input is rejected
     alphabet = "mskgKAΩμ°.-()15 ^*/⋅²⁻¹eE+\t\n" + "".join(chr(rng.randrange(32, 0x3000)) for _ in range(40)) + "\u0000퟿\U0001F600"
     for _ in range(500 if quick else 10000):
